@@ -178,3 +178,25 @@ def _(self, size, start, s_start, mq, prev_q, norm, muts, phase, dump_arr, bin_q
     # the reference cursor moves over the deleted bases, the read cursor does not
     ensures(result[0] == start + size and result[1] == s_start, label="cursors")
     modifies(muts, phase, dump_arr, self._indel_sites)
+
+
+# C06: "soft clips ... consume no reference": ONE soft-clip operation (slice inside the `elif op == 4:` branch)
+
+@contract("aldy.sam.Sample._parse_read@soft-clip-op", native=False)
+def _(size, start, s_start, norm, muts):
+    types(size="int", start="int", s_start="int",
+          norm="DefaultDict[int, List[Tuple[float, float]], 'list']",
+          muts="DefaultDict[Tuple[int, str], List[Tuple[float, float]], 'list']")
+    ensures(result[0] == start and result[1] == s_start + size, label="cursors")
+    modifies()
+
+
+# C06: after the aligned bases of ONE M / = / X operation both cursors have advanced by its length (slice: the two
+# statements after the per-base loop) - together with the per-base slice this is why splitting a match run into
+# several operations records the same observations
+
+@contract("aldy.sam.Sample._parse_read@match-op-cursors", native=False)
+def _(size, start, s_start):
+    types(size="int", start="int", s_start="int")
+    ensures(result[0] == start + size and result[1] == s_start + size, label="cursors")
+    modifies()
